@@ -36,12 +36,14 @@ class Env:
     def __init__(self):
         self.q = None
         self.used = 0
+        self.calls = []      # (name, location, scale) of every continuous draw requested while a script is active
 
     @contextlib.contextmanager
     def script(self, values):
         old = self.q
         self.q = collections.deque(values)
         self.used = 0
+        self.calls = []
         try:
             yield self
         finally:
@@ -120,6 +122,10 @@ class GenNpRandom(rng.FakeNpRandom):
     def _cont(self, name, loc, size, real_args):
         if not ENV.active:
             return getattr(_real_np.random, name)(*real_args)
+        try:
+            ENV.calls.append((name, float(_real_np.max(loc)) if _real_np.ndim(loc) else float(loc), float(real_args[1])))
+        except Exception:  # noqa
+            ENV.calls.append((name, 0.0, -1.0))
         sh = _shape(size)
         if sh is None:
             return loc + ENV.next(name)
